@@ -27,6 +27,8 @@ pub const PROFILE_ID: &str = "kip://profiles/cognitive-memory";
 pub const BASE_ID: &str = "kip://verif/base";
 pub const EXT_ID: &str = "kip://verif/ext";
 pub const WRITER: &str = "kip:principal:writer";
+/// The exact symbol the local name `prefers` and the alias `fond_of` resolve to.
+pub const PREFERS: &str = "kip://profiles/cognitive-memory@2.0.0/prefers";
 
 /// A functional (single-valued) predicate and a plain one; the shipped
 /// profile has no functional predicate.
@@ -187,10 +189,29 @@ pub fn lock(with_ext: bool) -> SchemaLock {
         lock.packages.insert(id.to_string(), version.to_string());
         lock.states.insert(id.to_string(), PackageState::Active);
     }
+    // a third spelling of one predicate: local name, exact symbol, alias
+    lock.aliases.insert("fond_of".to_string(), PREFERS.to_string());
     lock
 }
 
 impl World {
+    /// A database whose packages are installed but whose default Space has
+    /// never activated a Schema Lock (environment 0, Core only).
+    pub fn bare() -> Content {
+        block_on(async {
+            let store = Arc::new(InMemory::new());
+            let nexus = connect(store.clone()).await;
+            for source in [anda_cognitive_nexus::profiles::COGNITIVE_MEMORY, BASE_PACKAGE, EXT_PACKAGE] {
+                nexus
+                    .install_package(&SchemaPackage::parse(source).expect("package parses"), "verif")
+                    .await
+                    .expect("install_package");
+            }
+            nexus.close().await.expect("close");
+            ctlstore::snapshot(&store)
+        })
+    }
+
     pub fn build() -> World {
         block_on(async {
             let store = Arc::new(InMemory::new());
